@@ -14,9 +14,10 @@ impl PathBuf {
     pub fn mash_s(&self, s: &Str) -> (r: PathBuf) ensures r.comps() == spec_mash(self.comps(), parse(s@)) { unimplemented!() }
 }
 
-//@ item home_dir file=src/sys/fs/path.rs fn=home_dir props=C18,C17,C12
+//@ item home_dir file=src/sys/fs/path.rs fn=home_dir props=C18,C17,C12,C05,C01
 //@ rw R8 * ⟦std::env::var("HOME")?⟧ => ⟦env_var("HOME")?⟧
 //@ rw R1 * ⟦PathBuf::from(home)⟧ => ⟦PathBuf::from_s(&home)⟧
+//@ rw R1 * re⟦PathBuf::from\((home\.[^;]*)\);⟧ => ⟦PathBuf::from_s(\1);⟧
 pub fn home_dir() -> (r: RvResult<PathBuf>)
     ensures r is Ok == env("HOME"@) is Some, r is Ok ==> r->Ok_0.pstr() == env("HOME"@)->Some_0 && r->Ok_0.comps() == parse(env("HOME"@)->Some_0),   //@ clause home_dir.is_HOME [C18,C17]
             r is Err ==> r->Err_0.kind == ErrKind::Var,
